@@ -69,6 +69,34 @@ Fixpoint run_seq (p : params) (st : bstate) (t : Z) (cs : list Z) : list (Z * Z)
   | c :: r => let (st', w) := take p st t c in (t + w, c) :: run_seq p st' (t + w) r
   end.
 
+(* the same sender pausing gap_i before its i-th request (gap 0 everywhere = run_seq) *)
+Fixpoint run_gaps (p : params) (st : bstate) (t : Z) (gcs : list (Z * Z)) : list (Z * Z) :=
+  match gcs with
+  | [] => []
+  | (g, c) :: r => let (st', w) := take p st (t + g) c in (t + g + w, c) :: run_gaps p st' (t + g + w) r
+  end.
+
+(* Available(): adjusts the bucket to the current tick and reports the token count *)
+Definition available (p : params) (st : bstate) (now : Z) : bstate * Z :=
+  let st1 := adjust p st (tick_of p now) in (st1, avail st1).
+
+(* operations of the differential test against the library with an injected clock *)
+Inductive bop := BAdvance (d : Z) | BTake (c : Z) | BTakeMax (c m : Z) | BAvailable.
+Inductive bres := RWait (w : Z) | RRefused | RAvail (a : Z) | RNone.
+
+Fixpoint bops (p : params) (st : bstate) (now : Z) (ops : list bop) : list bres :=
+  match ops with
+  | [] => []
+  | BAdvance d :: r => RNone :: bops p st (now + d) r
+  | BTake c :: r => let (st', w) := take p st now c in RWait w :: bops p st' now r
+  | BTakeMax c m :: r =>
+      match take_max p st now c (Some m) with
+      | (st', Some w) => RWait w :: bops p st' now r
+      | (st', None) => RRefused :: bops p st' now r
+      end
+  | BAvailable :: r => let (st', a) := available p st now in RAvail a :: bops p st' now r
+  end.
+
 (* ------------------------------------------------------------ NewBucketWithRate *)
 (* The quantum search uses float64 arithmetic; its RESULT (quantum, fillInterval) is reported by the
    driver for every rate used and validated here: the candidate sequence is reproduced exactly
